@@ -22,7 +22,8 @@
 (* is the control flow of the machine.                                                      *)
 (*                                                                                          *)
 (* Deviations of the code from the ideal are modelled and NAMED, not idealised away.  Each  *)
-(* hazardous site has a name; `site` records the first one a connection reaches.  For the   *)
+(* hazardous site has a name; `site` records the first one in force that a connection        *)
+(* reaches (else the last repaired/benign one).  For the                                     *)
 (* sites in the constant Defects (generated from known_findings.json) the machine takes the *)
 (* defective step as coded on the pinned tree; for the others it takes the repaired step.   *)
 (*   EmptyPlusField  gopherp.py canhandlerequest indexes an empty field: IndexError raised  *)
@@ -490,7 +491,8 @@ NoReq == [line |-> "", tls |-> FALSE, wap |-> FALSE, hl |-> "default", tail |-> 
 
 Rec(p, e) == [addr |-> Client, proto |-> IF p = "none" THEN "None" ELSE p, cls |-> e.cls, fam |-> e.fam]
 Benign == {"none", "NotFound", "MailboxOSError", "WapSubprocess"}         \* sites that are not defects: a later hazard supersedes them
-SetSite(s) == site' = IF site \in Benign /\ s # "none" THEN s ELSE site
+\* `site` = the first site reached whose defect is in force; failing that, the last hazard reached
+SetSite(s) == site' = IF s # "none" /\ (site \in Benign \/ site \notin Defects) THEN s ELSE site
 
 ReadLine ==                                     \* rfile.readline()
     /\ pc = "read" /\ pc' = "select" /\ ops' = ops + 1
